@@ -1,7 +1,7 @@
 CONSTANTS
   Mode = "items2"
   Alpha = {0}
-  MaxLen = 0
+  MaxLen = 1
   First = {0}
 INIT Init
 NEXT Next
